@@ -208,7 +208,7 @@ class World:
         self.trace: list[dict[str, Any]] = []
         self.step_no = 0
         pcfg.ID_DIGEST_SIZE = 8
-        pcfg.RUNTIME_TYPE_CHECK = False
+        pcfg.RUNTIME_TYPE_CHECK = cfg.get("rtc") == "on"
         pcfg.TRACE_LOGGING = bool(cfg.get("trace_logging", False))
         FAULTS.disarm()
         if len(NODE_REGISTRY) != 0:
@@ -359,6 +359,12 @@ class World:
         except Exception as e:  # noqa: BLE001
             raise HarnessError(f"foreign class does not define: {type(e).__name__}: {e}") from None
         self.stats.probes["same_named_node_class_defined_elsewhere"] += 1
+        return "ok"
+
+    def op_set_rtc(self, op: dict[str, Any]) -> str:
+        """RUNTIME_TYPE_CHECK switched in the middle of the run (every value of the run is well-typed)"""
+        pcfg.RUNTIME_TYPE_CHECK = bool(op["on"])
+        self.stats.probes["runtime_type_check_switched"] += 1
         return "ok"
 
     def op_bare(self, op: dict[str, Any]) -> str:
@@ -674,7 +680,9 @@ class Gen:
         self.nf += 1
         name = r.choice(["f", "g", "a", "z", "m", "_h", "_a"]) + str(self.nf)
         if r.random() < 0.55:
-            kind = r.choice(list(PROP_KINDS))
+            # (no bool properties while instances are type-checked at run time: the pinned tree rejects bool values
+            # there, which is C13's business, not this property's)
+            kind = r.choice([k for k in PROP_KINDS if k != "bool" or not self.w.cfg.get("rtc")])
             f = {"name": name, "kind": kind, "init": True, "compare": True, "default": None, "quoted": r.random() < 0.3}
             x = r.random()
             if x < 0.15:
@@ -816,7 +824,7 @@ class Gen:
             op["step"] = step
             w.step(op)
 
-        self.late = r.random() < 0.3
+        self.late = r.random() < 0.3 and not w.cfg.get("rtc")
         do({"op": "define", "hier": self.hierarchy()})
         names = [c["name"] for c in w.h["classes"] if not c.get("plain")]
         if self.late:
@@ -870,6 +878,9 @@ class Gen:
             flat.insert(r.randint(0, len(flat)), {"op": "bare"})
         if r.random() < 0.3:
             flat.insert(r.randint(0, len(flat)), {"op": "foreign"})
+        if w.cfg.get("rtc"):
+            for _ in range(r.choice([0, 1, 2])):
+                flat.insert(r.randint(0, len(flat)), {"op": "set_rtc", "on": r.random() < 0.5})
         for op in flat:
             do(op)
         # functional updates of property values (non-comparable ones keep the id)
@@ -910,7 +921,7 @@ class Gen:
 
 def make_config(rseed: int, prop: str, tier: str, faults: bool) -> dict[str, Any]:
     r = Rng(rseed).s("config")
-    return {"machine": NAME, "prop": prop, "trace_logging": r.random() < 0.3, "redefine": r.random() < 0.35}
+    return {"machine": NAME, "prop": prop, "trace_logging": r.random() < 0.3, "redefine": r.random() < 0.35, "rtc": r.choice([None, None, None, "on", "off"])}
 
 
 def run(cfg: dict[str, Any], prop: str, rseed: int | None = None, ops: list[dict[str, Any]] | None = None, peer: Any = None) -> dict[str, Any]:
